@@ -486,7 +486,8 @@ def mutants(mb):
     mb.add_text("object-init-guard-flipped", M, "                    if name in values:\n                        init[name] = values[name]", "                    if name not in values:\n                        init[name] = values[name]", "C10.R7", "init-from-data")
     mb.add_text("object-selection-inverted", M, "                v for v in self.validators if not v.dependencies.isdisjoint(aliases)", "                v for v in self.validators if v.dependencies.isdisjoint(aliases)", "C10.R7", "selection")
     mb.add_text("object-real-run-no-init", M, "            return validate(obj, validators, init, aliaser=self.aliaser)", "            return validate(obj, validators, aliaser=self.aliaser)", "C10.R7", "real-args")
-    mb.add_text("neg-invalid-fields-renamed", M, "                invalid_fields = self.post_init_modified\n                if field_errors:\n                    invalid_fields = invalid_fields | field_errors.keys()\n", "                failed = self.post_init_modified\n                if field_errors:\n                    failed = failed | field_errors.keys()\n", negative=True)
+    mb.add_text("neg-invalid-fields-renamed", M, "                invalid_fields = self.post_init_modified\n                if field_errors:\n                    invalid_fields = invalid_fields | field_errors.keys()\n                try:\n                    validate(\n                        ValidatorMock(self.constructor.cls, values),\n                        [\n                            v\n                            for v in validators\n                            if v.dependencies.isdisjoint(invalid_fields)\n",
+                "                failed = self.post_init_modified\n                if field_errors:\n                    failed = failed | field_errors.keys()\n                try:\n                    validate(\n                        ValidatorMock(self.constructor.cls, values),\n                        [\n                            v\n                            for v in validators\n                            if v.dependencies.isdisjoint(failed)\n", negative=True)
     mb.add_text("validators-i", V, "validators[i + 1 :]", "validators[i:]", "C10.R1", "validate")
     mb.add_text("rec-build-no-slice", E, "_rec_build_error(path[1:], msg)", "_rec_build_error(path[0:], msg)", "C10.R1", "_rec_build_error")
     mb.add_text("apply-aliaser-self", E, "        child2 = apply_aliaser(child, aliaser)\n", "        child2 = apply_aliaser(error, aliaser)\n", "C10.R1", "apply_aliaser")
